@@ -428,3 +428,141 @@ Proof.
   intros nt c x p Hwf Hc. induction p as [|e p IH]; [unfold supply; destruct (feeder_of nt c); reflexivity|].
   rewrite supply_cons, ExecBase.count_item_app, <- IH, <- produced_by_supply by assumption. reflexivity.
 Qed.
+
+(* ------------------------------------------------------------------ every step keeps the trace admissible *)
+Lemma nworkers_pos : forall nt n, forallb (fun x => 0 <? nworkers x) nt = true -> n < length nt ->
+  0 < nworkers (info nt n).
+Proof.
+  intros nt n H Hn. rewrite forallb_forall in H. apply Nat.ltb_lt. apply H. unfold info. apply nth_In; auto.
+Qed.
+
+Lemma trace_ok_step : forall nt T s a s', wf_net nt = true -> forallb (fun x => 0 <? nworkers x) nt = true ->
+  reachable nt T s -> step nt T s a = Ok s' -> trace_ok nt (tr s) = [] -> trace_ok nt (tr s') = [].
+Proof.
+  intros nt T s a s' Hwf Hpos HR H Hok.
+  pose proof (step_fp _ _ _ _ _ H) as F. destruct F as [G Ftr _ _ _ _ _].
+  pose proof (link_reachable nt T s Hwf HR) as K.
+  destruct (life'_reachable nt T s Hwf HR) as [Hs I]. pose proof Hs as [Hlen Hws].
+  pose proof (ExecCount.count_inv_reachable nt T s HR) as C.
+  destruct C as (Ccons & Cchan & _ & _ & _ & Ccalls & Cflight & _).
+  pose proof (ExecMain.source_history_reachable nt T s HR) as Hh. unfold ExecMain.src_history in Hh.
+  rewrite Ftr. clear Ftr H.
+  destruct a; cbn [guard] in G; cbn [evs]; try exact Hok.
+  - (* SrcEmit *)
+    cbn [app trace_ok]. rewrite Hok, app_nil_r. apply ev_ok_emit.
+    rewrite (k_run _ _ K). destruct G as [[k ->] _]. reflexivity.
+  - (* SrcReturnNil *)
+    destruct G as [k Hk]. rewrite Hk in *. cbn [app trace_ok]. rewrite Hok, app_nil_r. apply ev_ok_end.
+    + rewrite <- started_src, Hh. unfold started, has. cbn [existsb]. rewrite Nat.eqb_refl. reflexivity.
+    + rewrite <- ended_src, Hh. destruct (failed_fresh k k (le_n _)) as (_ & B & _).
+      unfold ended, has in *. cbn [existsb]. rewrite B. reflexivity.
+  - (* SrcReturnErr *)
+    destruct G as [k Hk]. rewrite Hk in *. cbn [app trace_ok]. rewrite Hok, app_nil_r. apply ev_ok_end.
+    + rewrite <- started_src, Hh. unfold started, has. cbn [existsb]. rewrite Nat.eqb_refl. reflexivity.
+    + rewrite <- ended_src, Hh. destruct (failed_fresh k k (le_n _)) as (_ & B & _).
+      unfold ended, has in *. cbn [existsb]. rewrite B. reflexivity.
+  - (* SrcRestart *)
+    destruct G as [k Hk]. pose proof (k_nil _ _ K) as Knil. rewrite Hk in *.
+    cbn [app trace_ok]. rewrite Hok, app_nil_r.
+    destruct (failed_fresh (S k) (S k) (le_n _)) as (A & _ & B).
+    assert (P1 : prepped (S k) (tr s) = false) by (rewrite <- prepped_src, Hh; exact B).
+    assert (P2 : started (S k) (tr s) = false) by (rewrite <- started_src, Hh; exact A).
+    assert (P3 : ended_with k false (tr s) = true).
+    { rewrite <- ended_with_src, Hh. unfold ended_with, has. cbn [ExecMain.failed existsb]. rewrite Nat.eqb_refl. reflexivity. }
+    rewrite (ev_ok_prep_succ nt k (tr s) P1 P3), app_nil_r.
+    apply ev_ok_start_succ.
+    + unfold prepped, has. cbn [existsb]. rewrite Nat.eqb_refl. reflexivity.
+    + exact P2.
+    + exact P3.
+    + exact Knil.
+  - (* MainWgDone *)
+    destruct G as [Hm Hall]. cbn [app trace_ok]. rewrite Hok, app_nil_r. apply ev_ok_done.
+    + rewrite (k_done _ _ K), Hm. reflexivity.
+    + intros _. apply forallb_forall. intros n Hin. apply in_seq in Hin. assert (Hn : n < length nt) by lia.
+      rewrite (k_shute _ _ K).
+      unfold all_exited in Hall. rewrite forallb_forall in Hall.
+      assert (Hn2 : n < length (nodes s)) by lia.
+      specialize (Hall (node s n) (node_In _ _ Hn2)).
+      pose proof (nworkers_pos nt n Hpos Hn) as Hp. rewrite <- (Hws n Hn) in Hp.
+      destruct (ws (node s n)) as [|w0 wr] eqn:Ew; [cbn in Hp; lia|].
+      assert (Hg : nth_error (ws (node s n)) 0 = Some w0) by (rewrite Ew; reflexivity).
+      cbn [forallb] in Hall. apply andb_true_iff in Hall. destruct Hall as [Hw0 _].
+      destruct w0; try discriminate.
+      rewrite (n4 _ _ _ _ _ _ _ _ (i_nodes _ _ I n Hn) 0 Hg). reflexivity.
+  - (* MainTimeout *)
+    cbn [app trace_ok]. rewrite Hok, app_nil_r. apply ev_ok_done.
+    + rewrite (k_done _ _ K), G. reflexivity.
+    + discriminate.
+  - (* Deq *)
+    destruct G as [Hg Hq]. destruct (q (node s n)) as [|it rest] eqn:Eq; [contradiction|].
+    pose proof (node_ws_some_lt _ _ _ _ Hg) as Hn2. assert (Hn : n < length nt) by lia.
+    pose proof (i_nodes _ _ I n Hn) as Hnok.
+    cbn [app trace_ok]. rewrite Hok, app_nil_r. apply ev_ok_enter.
+    + apply (k_setup _ _ K n Hn).
+    + rewrite (k_shutb _ _ K). destruct (once (node s n)) eqn:Ho; auto; exfalso;
+        assert (Hne : once (node s n) <> ONone) by congruence;
+        pose proof (n1 _ _ _ _ _ _ _ _ Hnok Hne w _ Hg); discriminate.
+    + rewrite (k_calls _ _ K n Hn). apply Nat.ltb_lt. rewrite <- (Hws n Hn).
+      eapply filter_lt; eauto.
+    + apply Nat.ltb_lt. rewrite <- produced_supply by assumption.
+      specialize (Ccons n it). specialize (Cchan n it). rewrite Eq in Cchan. cbn [count_item] in Cchan.
+      rewrite ExecBase.item_eqb_refl in Cchan. lia.
+  - (* Return *)
+    destruct G as [it Hg]. rewrite Hg. cbn [app trace_ok]. rewrite Hok, app_nil_r. apply ev_ok_ret.
+    apply Nat.ltb_lt. specialize (Ccalls n it).
+    pose proof (sumf_ge _ (wproc it) _ _ _ Hg) as Hge. cbn [wproc] in Hge. rewrite ExecBase.item_eqb_refl in Hge. lia.
+  - (* OnceEnter *)
+    destruct G as [Hg Ho].
+    pose proof (node_ws_some_lt _ _ _ _ Hg) as Hn2. assert (Hn : n < length nt) by lia.
+    pose proof (i_nodes _ _ I n Hn) as Hnok.
+    cbn [app trace_ok]. rewrite Hok, app_nil_r. apply ev_ok_shutb.
+    + rewrite (k_shutb _ _ K), Ho. reflexivity.
+    + rewrite (k_calls _ _ K n Hn). apply Nat.eqb_eq. rewrite filter_none; auto.
+      intros i a Hi. pose proof (nx1 _ _ _ _ _ _ _ _ Hnok w _ i a Hg eq_refl Hi) as Hp.
+      destruct a; try discriminate; reflexivity.
+    + destruct (n2 _ _ _ _ _ _ _ _ Hnok w _ Hg eq_refl) as [Hcl _].
+      unfold upstream_finished.
+      destruct (k_fed _ _ K n Hcl) as [Hr|[m [Hm Hin]]].
+      * pose proof Hr as Hr'. apply root_role in Hr'. destruct Hr' as [_ Er]. unfold feeder_of. rewrite Er.
+        rewrite (k_nil _ _ K), (k_root _ _ K n Hr Hcl). reflexivity.
+      * pose proof (i_g6 _ _ I m n Hm Hin Hcl) as Hod.
+        assert (Hsh : shute m (tr s) = true) by (rewrite (k_shute _ _ K), Hod; reflexivity).
+        destruct (feeder_of_target nt m n Hwf Hm Hin) as [-> | ->]; exact Hsh.
+  - (* ShutdownReturn *)
+    pose proof (node_ws_some_lt _ _ _ _ G) as Hn2. assert (Hn : n < length nt) by lia.
+    pose proof (i_nodes _ _ I n Hn) as Hnok.
+    pose proof (guard_once_running _ _ _ _ _ Hs I G eq_refl) as Ho.
+    cbn [app trace_ok]. rewrite Hok, app_nil_r. apply ev_ok_shute.
+    + rewrite (k_shutb _ _ K), Ho. reflexivity.
+    + rewrite (k_shute _ _ K), Ho.
+      destruct (existsb isclosing (ws (node s n))) eqn:E; auto. exfalso.
+      apply existsb_to_nth_error in E. destruct E as (i & st & Hi & Hc). destruct st; try discriminate.
+      assert (Hne : w <> i) by (intro; subst; congruence).
+      pose proof (filter_two _ is_running_once _ _ _ _ _ G Hi Hne eq_refl eq_refl) as H2.
+      pose proof (n3 _ _ _ _ _ _ _ _ Hnok) as H3. rewrite Ho in H3. lia.
+  - (* Callback *)
+    destruct G as [rest Hr]. cbn [app trace_ok]. rewrite Hok, app_nil_r. apply ev_ok_cb.
+    apply Nat.ltb_lt. specialize (Cflight n it).
+    pose proof (ExecBase.count_item_remove_one _ _ _ Hr it) as Hc. rewrite ExecBase.item_eqb_refl in Hc. lia.
+Qed.
+
+(* C01..C05, C18 on the observable trace: every run of the model satisfies the trace specification *)
+Theorem trace_ok_reachable : forall nt T s, wf_net nt = true -> forallb (fun x => 0 <? nworkers x) nt = true ->
+  reachable nt T s -> trace_ok nt (tr s) = [].
+Proof.
+  intros nt T s Hwf Hpos [sch Hr].
+  assert (G : forall sch s0 s1, reachable nt T s0 -> trace_ok nt (tr s0) = [] -> run nt T s0 sch = Ok s1 ->
+                                trace_ok nt (tr s1) = []).
+  { induction sch0 as [|a sch0 IH]; intros s0 s1 R0 K0 H; cbn [run] in H.
+    - injection H as <-. exact K0.
+    - destruct (step nt T s0 a) as [s2| |] eqn:E; try discriminate.
+      apply (IH s2 s1); auto.
+      + eapply reachable_step; eauto.
+      + eapply trace_ok_step; eauto. }
+  apply (G sch (init nt) s); auto.
+  - exists []. reflexivity.
+  - apply trace_ok_init.
+Qed.
+
+Print Assumptions produced_supply.
+Print Assumptions trace_ok_reachable.
